@@ -18,7 +18,7 @@ import random
 
 import front
 
-LEAN_MODULE = "PydjinniModel.Props.C05Program"
+LEAN_MODULE = "PydjinniModel.Props.C04All"
 THEOREMS = [
     "Pydjinni.Front.resolve_eq_lexical",
     "Pydjinni.Front.resolve_none_iff",
@@ -37,6 +37,12 @@ THEOREMS = [
     "Pydjinni.Front.get_stable",
     "Pydjinni.Front.lexicalLookup_stable",
     "Pydjinni.Front.front_bindings_lexical",
+    "Pydjinni.Front.findSome_prefixes_iff",
+    "Pydjinni.Front.resolve_some_iff_innermost",
+    "Pydjinni.Front.resolve_depth_unique",
+    "Pydjinni.Front.resolve_inner_shadows",
+    "Pydjinni.Front.resolve_only_enclosing",
+    "Pydjinni.Front.prefixes_eq_takes",
 ]
 LEVEL = "proof"
 
